@@ -36,6 +36,7 @@ type sfield struct {
 	Type int // protoMetricsV1.SimpleFieldType
 	Val  float64
 }
+
 func (f sfield) MarshalJSON() ([]byte, error) {
 	return []byte(fmt.Sprintf("{\"name\":%q,\"type\":%d,\"val\":\"%v\"}", f.Name, f.Type, f.Val)), nil
 }
@@ -498,6 +499,83 @@ func main() {
 		}
 		if m.Timestamp() != g.TS || string(m.Name()) != sanitizeName(g.Name) {
 			out.Violation(idx, "row-changed", fmt.Sprintf("influx: line %q name %q ts %d want %d", sb.String(), m.Name(), m.Timestamp(), g.TS), nil)
+		}
+	}
+
+	// ---------- line-protocol bodies of several lines, some of them rejected: an accepted row is the row its line gives
+	// when it is sent alone ("does not depend on the other rows of the batch", "invalid metrics are rejected as a whole")
+	{
+		describe := func(m flatMetricsV1.Metric) string {
+			var fs []string
+			var f flatMetricsV1.SimpleField
+			for j := 0; j < m.SimpleFieldsLength(); j++ {
+				m.SimpleFields(&f, j)
+				fs = append(fs, fmt.Sprintf("%s:%d=%v", f.Name(), f.Type(), f.Value()))
+			}
+			return fmt.Sprintf("ns=%s name=%s ts=%d tags=%v fields=%v hash=%d", m.Namespace(), m.Name(), m.Timestamp(), storedTags(m), fs, m.KvsHash())
+		}
+		parseBody := func(body string) ([]string, error) {
+			req, _ := http.NewRequest(http.MethodPost, "http://x/write?precision=ms", strings.NewReader(body))
+			batch, err := influx.Parse(req, nil, "ns", limSets[0])
+			if err != nil {
+				return nil, err
+			}
+			var ds []string
+			for _, row := range batch.Rows() {
+				ds = append(ds, describe(row.Metric()))
+			}
+			return ds, nil
+		}
+		now := fasttime.UnixMilliseconds()
+		names := []string{"cpu", "mem", "disk", "net"}
+		tagk := []string{"host", "dc", "region", "az"}
+		for b := 0; b < cfg.N/6+3; b++ {
+			var lines []string
+			kinds := map[string]int{}
+			for l := r.Range(2, 5); l > 0; l-- {
+				var sb strings.Builder
+				sb.WriteString(names[r.Intn(len(names))])
+				for _, k := range tagk {
+					if r.Chance(45) {
+						sb.WriteString(fmt.Sprintf(",%s=v%d", k, r.Intn(3)))
+					}
+				}
+				kind := "valid"
+				switch x := r.Intn(100); {
+				case x < 55:
+					sb.WriteString(fmt.Sprintf(" used=%d,idle=%d %d", r.Intn(50), r.Intn(50), now-int64(r.Intn(1000))))
+				case x < 70:
+					kind = "bad-timestamp"
+					sb.WriteString(fmt.Sprintf(" used=%d 12345abc", r.Intn(50)))
+				case x < 85:
+					kind = "no-usable-field"
+					sb.WriteString(fmt.Sprintf(" msg=\"hello\" %d", now))
+				default:
+					kind = "no-fields"
+					sb.WriteString(fmt.Sprintf(" %d", now))
+				}
+				kinds[kind]++
+				lines = append(lines, sb.String())
+			}
+			idx := out.Case(map[string]interface{}{"kind": "influx-body", "lines": lines}, kinds["valid"] >= 1 && len(kinds) >= 2)
+			out.Count("influx-body")
+			var alone []string
+			for _, ln := range lines {
+				ds, err := parseBody(ln + "\n")
+				if err == nil {
+					alone = append(alone, ds...)
+				}
+			}
+			whole, err := parseBody(strings.Join(lines, "\n") + "\n")
+			if err != nil {
+				if len(alone) > 0 {
+					out.Violation(idx, "influx-body-rejected", err.Error(), lines)
+				}
+			} else if strings.Join(whole, "\n") != strings.Join(alone, "\n") {
+				out.Violation(idx, "row-depends-on-other-lines", "the rows of the body differ from the rows of its lines sent alone",
+					map[string]interface{}{"body": whole, "alone": alone})
+			}
+			out.Check(idx, "(0%nat, 0%nat)")
 		}
 	}
 
